@@ -106,11 +106,29 @@ Proof.
 Qed.
 Print Assumptions T01_grow_map_reachable.
 
+(** DFAContentModel::buildDFA: with the grow-if-full test as written in the source (regenerated: ==), every state is
+    stored inside the arrays and room for the next one is made in time; the initial size 4 x leafCount holds the first
+    state.  (With the test weakened to ">" the statement is false: T01_grow_dfa_late_test_refuted.) *)
+Theorem T01_grow_dfa : forall cur size w cur' size', cur < size -> 2 <= size ->
+  dfa_add_state cur size = (w, cur', size') -> w < size /\ cur' < size' /\ 2 <= size' /\ size <= size'.
+Proof.
+  intros cur size w cur' size' H1 H2 E. unfold dfa_add_state, dfa_full, dfaGrowTest, dfaGrowNum, dfaGrowDen in E.
+  cbn [N.eqb] in E. destruct (N.eqb_spec (cur + 1) size); inversion E; subst; lia.
+Qed.
+Print Assumptions T01_grow_dfa.
+Theorem T01_grow_dfa_init : forall leaves, 1 <= leaves -> 1 < leaves * dfaInitFactor /\ 2 <= leaves * dfaInitFactor.
+Proof. intros leaves H. unfold dfaInitFactor. lia. Qed.
+Theorem T01_grow_dfa_late_test_refuted :
+  exists cur size, cur < size /\ 2 <= size /\
+    let cur' := cur + 1 in let size' := (if size <? cur' then size * 3 / 2 else size) in ~ (cur' < size').
+Proof. exists 79, 80. vm_compute. split; [reflexivity|]. split; [discriminate|]. discriminate. Qed.
+
 (** non-vacuity *)
 Example T01_nonvacuous_ops :
   fst (run_ops (mk_cfg 1 true 4 8 2 true true) 64 (mk_reader [[0x3C; 0]; [0x61; 0; 0x0D]; [0; 0x0A; 0; 0x40; 0xD8; 0x00; 0xDC; 0x3E; 0]])
                [OSkipChar 0x3C; OName false; OSkipSpaces; OPeekStr [0xD840; 0xDC00]; OName true; OGet; OGet])
   = ([RBool true; RName true [0x61]; RBool2 true true; RBool true; RName true [0xD840; 0xDC00]; RCh (Some 0x3E); RCh None], None).
 Proof. vm_compute. reflexivity. Qed.
-Example T01_nonvacuous_grow : buf_append1 1023 1023 = (1023, 1024, 2048) /\ stack_expand 32 = 40 /\ map_expand 0 = 16 /\ map_expand 16 = 20.
+Example T01_nonvacuous_grow : buf_append1 1023 1023 = (1023, 1024, 2048) /\ stack_expand 32 = 40 /\ map_expand 0 = 16 /\ map_expand 16 = 20 /\
+  dfa_add_state 79 80 = (79, 80, 120).
 Proof. vm_compute. auto. Qed.
